@@ -2,7 +2,7 @@
 import importlib
 import lib
 
-FAMILIES = ["forkchoice", "helpers", "forks", "beacon"]
+FAMILIES = ["forkchoice", "helpers", "forks", "beacon", "gossip"]
 
 
 def main(args):
